@@ -220,6 +220,34 @@ def rule_typestate(m):
                     ct = u.decl(t[2][1]).get('ctype', '')
                     if ct.startswith(('std::vector<', 'std::queue<', 'std::deque<', 'std::stack<')):
                         container, kind = t[2], 'vector'
+                if container is None and t[0] == 'deref' and t[1][0] == 'var' and \
+                        'List_' in (u.decl(t[1][1]) or {}).get('ctype', '').replace('std::list<', 'List_<'):
+                    # 3b. a reference to the element a list iterator points at dies with the node: erase(it) / erase(it++)
+                    itv = t[1]
+                    for x in f.nodes:
+                        if x['k'] != 'CXXMemberCallExpr' or 'callee' not in x:
+                            continue
+                        cd = u.decl(x['callee'])
+                        if cd.get('record') != 'std::list' or cd['name'] != 'erase' or not x.get('args'):
+                            continue
+                        bt = tt.t(x['args'][0], resolve_refs=False)
+                        while bt[0] in ('ctor', 'cast', 'conv'):
+                            bt = bt[2][0] if bt[0] == 'ctor' and bt[2] else bt[2]
+                        if bt[0] == 'un' and bt[1] in ('++', '--'):
+                            bt = bt[3] if len(bt) > 3 else bt
+                        if bt != itv or not f.can_reach(n['i'], x['i']):
+                            continue
+                        res.sites += 1
+                        uses = uses_after(f, x['i'], d)
+                        if uses:
+                            res.fail(Finding('F-TS', disp, 'use of reference %s after erase of its node' % dd['name'], f.nloc(uses[0]),
+                                             'reference `%s` is bound to the element `*%s`; `%s` at %s destroys that list node and '
+                                             'the reference is read again at %s' % (dd['name'], u.decl(itv[1])['name'],
+                                                                                    f.expr_text(x['i'])[:50], f.nloc(x['i']), f.nloc(uses[0]))))
+                        else:
+                            res.ok(dict(function=disp, reference=dd['name'], into='*' + u.decl(itv[1])['name'], invalidated_by='erase',
+                                        at=f.nloc(x['i']), verdict='no use afterwards') if len(res.samples) < 20 else None, fn=disp)
+                    continue
                 if container is None:
                     continue
                 for x in f.nodes:
